@@ -556,6 +556,7 @@ func (u *Unit) syncCall(st *State, fr *Frame, site ssa.Instruction, name string,
 	switch name {
 	case "(*sync.Mutex).Lock", "(*sync.RWMutex).Lock", "(*sync.RWMutex).RLock":
 		mu := args[0]
+		u.lockSetCheck(st, fr, site, []Term{mu}, "Lock")
 		held := u.ghostGet(st, "held", SInt, mu)
 		st.Assume(Ge(held, IntLit(0)))
 		u.ghostSet(st, "held", SInt, mu, Add(held, IntLit(1)))
@@ -1090,4 +1091,149 @@ func (u *Unit) chanStore(st *State, addr, v Term) {
 		return
 	}
 	u.chanLeak(st, v)
+}
+
+// ---------------- lock sets (locks_only) ----------------
+//
+// `locks_only &s.reqMu` in a function contract: the only mutexes this function
+// (including what it calls inside the module) ever waits for are the listed
+// ones. This is the contract form of the rule "the send path never takes the
+// receive lock": an operation that takes a lock another operation holds while
+// blocked can deadlock although every single function is locally correct.
+
+func (u *Unit) ownLockSet(st *State, fr *Frame) (set []Term, cl *Clause, has bool) {
+	if u.C == nil {
+		return nil, nil, false
+	}
+	top := fr
+	for top.Parent != nil {
+		top = top.Parent
+	}
+	if top.Entry == nil {
+		return nil, nil, false
+	}
+	for _, c := range u.C.Clauses {
+		if c.Kind != "locks_only" {
+			continue
+		}
+		has = true
+		cl = c
+		env := u.entryEnv(top, top.Entry)
+		for _, ex := range c.Exprs {
+			v, err := env.Eval(ex)
+			if err != nil {
+				u.specError(c, err)
+				continue
+			}
+			set = append(set, v.T)
+		}
+	}
+	return set, cl, has
+}
+
+func (u *Unit) lockSetCheck(st *State, fr *Frame, site ssa.Instruction, mus []Term, what string) {
+	set, cl, has := u.ownLockSet(st, fr)
+	if !has {
+		return
+	}
+	for _, mu := range mus {
+		var alts []Term
+		for _, m := range set {
+			alts = append(alts, Eq(mu, m))
+		}
+		ord := u.siteOrdinal(site, "lockset")
+		u.Prove(st, u.obligName("lockset", fmt.Sprintf("#%d", ord)), "lockset", u.tagsOr(cl.Tags), posOf(site), what+" only of a mutex listed in locks_only: "+cl.Text, Or(alts...), []Term{mu})
+	}
+}
+
+// lockSetCall: a call to another function of the module from a unit with a lock set.
+func (u *Unit) lockSetCall(st *State, fr *Frame, site ssa.Instruction, callee *ssa.Function, ct *Contract, env *Env) {
+	_, cl, has := u.ownLockSet(st, fr)
+	if !has || callee == nil || callee.Pkg == nil || !strings.HasPrefix(callee.Pkg.Pkg.Path(), modulePath) {
+		return
+	}
+	if ct != nil {
+		declared := false
+		var mus []Term
+		for _, c := range ct.Clauses {
+			if c.Kind != "locks_only" {
+				continue
+			}
+			declared = true
+			for _, ex := range c.Exprs {
+				v, err := env.Eval(ex)
+				if err != nil {
+					u.specError(c, err)
+					continue
+				}
+				mus = append(mus, v.T)
+			}
+		}
+		if declared {
+			u.lockSetCheck(st, fr, site, mus, "call to "+callee.Name()+" which locks")
+			return
+		}
+	}
+	if u.P.mayLock(callee) {
+		ord := u.siteOrdinal(site, "lockset")
+		u.Prove(st, u.obligName("lockset", fmt.Sprintf("call:%s#%d", callee.Name(), ord)), "lockset", u.tagsOr(cl.Tags), posOf(site), "callee "+callee.Name()+" takes a mutex but declares no locks_only set", False, nil)
+	}
+}
+
+// mayLock: fn, or a function of the module it statically calls, calls Lock/RLock.
+func (p *Prog) mayLock(fn *ssa.Function) bool {
+	p.mu.Lock()
+	if p.mayLockCache == nil {
+		p.mayLockCache = map[*ssa.Function]bool{}
+	}
+	p.mu.Unlock()
+	seen := map[*ssa.Function]bool{}
+	var visit func(f *ssa.Function) bool
+	visit = func(f *ssa.Function) bool {
+		if f == nil || seen[f] {
+			return false
+		}
+		seen[f] = true
+		p.mu.Lock()
+		v, ok := p.mayLockCache[f]
+		p.mu.Unlock()
+		if ok {
+			return v
+		}
+		for _, b := range f.Blocks {
+			for _, in := range b.Instrs {
+				var cc *ssa.CallCommon
+				switch x := in.(type) {
+				case *ssa.Call:
+					cc = &x.Call
+				case *ssa.Defer:
+					cc = &x.Call
+				case *ssa.Go:
+					continue // another goroutine's locks are not this one's
+				case *ssa.MakeClosure:
+					if visit(x.Fn.(*ssa.Function)) {
+						return true
+					}
+					continue
+				default:
+					continue
+				}
+				if sc := cc.StaticCallee(); sc != nil {
+					switch sc.String() {
+					case "(*sync.Mutex).Lock", "(*sync.RWMutex).Lock", "(*sync.RWMutex).RLock":
+						return true
+					}
+					if sc.Pkg != nil && strings.HasPrefix(sc.Pkg.Pkg.Path(), modulePath) && visit(sc) {
+						return true
+					}
+				}
+			}
+		}
+		return false
+	}
+	r := visit(fn)
+	p.mu.Lock()
+	p.mayLockCache[fn] = r
+	p.mu.Unlock()
+	return r
 }
